@@ -531,4 +531,26 @@ func c08(x *Ctx) {
 		}
 		c.Decide(!bad, r4, "conditionMatchesValue/untyped", x.PosOf(cmv.Pos()), "untyped fallback: absent ⇒ no match unless not-exists", "the untyped comparison can match an absent field for an operator other than not-exists")
 	}
+
+	// ---- the key under which a rule's downstream sampler is kept identifies the rule completely -----------------
+	// (the rules sampler stores and finds the delegate of a rule under rule.String(); two rules must never share it)
+	const rKey = "C08.downstream-key-complete"
+	if sf := x.P.Func("config", "RulesBasedSamplerRule", "String"); sf != nil && sf.Blocks != nil && len(sf.Params) >= 1 {
+		c.Examined++
+		recv := sf.Params[0]
+		whole := false
+		for _, rv := range returnedValues(sf, 0) {
+			if _, d := eng.Derives(rv, func(v ssa.Value) bool {
+				// the whole struct value (a load of *r, boxed for fmt), not a selection of its fields
+				u, ok := v.(*ssa.UnOp)
+				return ok && u.Op == token.MUL && u.X == ssa.Value(recv)
+			}, eng.FlowOpts{ThroughCalls: true}); d {
+				whole = true
+			}
+		}
+		c.Decide(whole, rKey, "RulesBasedSamplerRule.String", x.PosOf(sf.Pos()), "the key renders the whole rule value (including its sampler pointer)",
+			"RulesBasedSamplerRule.String() – the key of the rules sampler's delegate map – is built from a selection of fields instead of the whole rule: two rules with the same name/scope/shape but different downstream samplers share one entry, and the first matching rule's trace is handed to the other rule's sampler")
+	} else {
+		c.Unresolved(rKey, "config.RulesBasedSamplerRule.String", "method not found")
+	}
 }
